@@ -122,6 +122,8 @@ def run(ck):
     remainder_exemption(ck, prog)
     layer_count_rule(ck, prog)
     agreement(ck, prog)
+    from . import width
+    width.run(ck, prog, only=("FriProof", "FriProofLayer"), floor=3)   # the FRI proof of a legal schedule survives serialization
     ck.control("FriProver::build_layers does not clear the layers", "layers" not in clears(prog, bl))
 
 
